@@ -125,10 +125,14 @@ class Sym(torch.Tensor):
             if not isinstance(pieces, (tuple, list)) or not 0 <= CAT_PICK < len(pieces):
                 raise Untraceable(f"cat: cannot pick piece {CAT_PICK}")
             return Sym(e(pieces[CAT_PICK]))
+        if name in EXTRA_FUNCS:      # handlers registered by a property harness: handler(args, kwargs, e) -> Sym / value
+            return EXTRA_FUNCS[name](args, kwargs, e)
         raise Untraceable(f"untranslated torch function `{name}`")
 
 
 CAT_PICK = None
+EXTRA_FUNCS: dict = {}   # torch function name -> handler(args, kwargs, e) where e(arg) is the expression of an argument
+EXTRA_EMIT: dict = {}    # expression node kind -> emitter(node, emit) -> Coq text
 
 
 class cat_pick:
@@ -240,6 +244,8 @@ def emit(e) -> str:
         if c[0] == "eq":
             return f"(if Req_EM_T {x} {y} then {a} else {b})"
         raise Untraceable(f"condition {c[0]}")
+    if k in EXTRA_EMIT:
+        return EXTRA_EMIT[k](e, emit)
     raise Untraceable(f"cannot emit {k}")
 
 
